@@ -1,7 +1,7 @@
 /-
   C18 — time-unit conversions for kernel and CSPTP interfaces are exact and normalised.
-  Integer clauses only; the floating-point clauses (scaled-ppm round trip, drift
-  proportionality) wait for Model/F64 and are listed in notes/C18.md.
+  Integer clauses; the floating-point clauses (scaled-ppm round trip, drift
+  proportionality) are in Props/C18Float.lean.
   Models: ScionTime/Model/Unixutil.lean, ScionTime/Model/CsptpConv.lean.
 -/
 import ScionTime.Model.Unixutil
